@@ -21,6 +21,11 @@ pub struct ChunkyReader<'a> {
     pub fail_at: Option<usize>,
     /// once failed, every later source call fails too
     pub fail_sticky: bool,
+    /// the injected failure is ErrorKind::Interrupted (by convention retryable)
+    pub fail_interrupted: bool,
+    /// return ErrorKind::Interrupted `count` times in a row once the logical
+    /// position reaches `pos` (a burst at one offset)
+    pub interrupt_burst: Option<(usize, usize)>,
     pub failed: bool,
     /// Read::read returns at most this many bytes per call (short reads)
     pub read_max: Option<usize>,
@@ -38,6 +43,8 @@ impl<'a> ChunkyReader<'a> {
             calls: 0,
             fail_at: None,
             fail_sticky: false,
+            fail_interrupted: false,
+            interrupt_burst: None,
             failed: false,
             read_max: None,
         }
@@ -59,7 +66,15 @@ impl<'a> ChunkyReader<'a> {
         self.calls += 1;
         if self.fail_at == Some(k) || (self.fail_sticky && self.failed) {
             self.failed = true;
-            return Err(io::Error::new(io::ErrorKind::Other, "injected read fault"));
+            let kind = if self.fail_interrupted { io::ErrorKind::Interrupted } else { io::ErrorKind::Other };
+            return Err(io::Error::new(kind, "injected read fault"));
+        }
+        if let Some((pos, count)) = self.interrupt_burst {
+            if self.pos >= pos && count > 0 {
+                self.interrupt_burst = Some((pos, count - 1));
+                self.failed = true;
+                return Err(io::Error::new(io::ErrorKind::Interrupted, "injected interrupted burst"));
+            }
         }
         Ok(())
     }
